@@ -458,6 +458,10 @@ def leaf_eval(r):
         ref = c[6] if len(c) > 6 else res
         return (res == ref, res == mv and res != "PANIC", "reader %s rep=%s field=%s data=%s init=%s -> %s (model %s)" % (k, rep, field, data, init, res, mv),
                 "|".join(c[:5]), len(data) > 3, k)
+    if s == "rseq":
+        _, slots, data, steps, verdict = c[:5]
+        # the steps themselves are reader rows; this row says whether anything observed earlier changed afterwards
+        return (verdict == "stable", True, "reader sequence over x%s with destinations %s (%s calls): %s" % (data[:300], slots, steps, verdict[:300]), "rseq|" + slots + "|" + data[:600], True, "rseq")
     if s == "eprog":
         prog, impl, ref = c[:3]
         m2 = dict(x.split("=", 1) for x in mv.split(" ") if "=" in x)
@@ -547,7 +551,7 @@ K32 = ("bool", "int32", "sint32", "sfixed32", "uint32", "fixed32", "float", "enu
 def check_C13(ctx):
     return run_leaf_property(ctx, dict(
         theorems=["C13_writer", "C13_nest_message", "C13_nest_always", "C13_nest_present", "C13_reader_other", "C13_reader_wrong_wire", "C13_reader_value", "C13_reader_next", "C13_reader_any_input", "C13_repeated_reader_iteration", "C13_packed_is_reference_unpack", "C13_encoder_programs", "C13_absent_message_no_trace"],
-        suites=lambda c: [("writers", ["writers", c.seed] + (["thorough"] if c.tier == "thorough" else [])), ("readers", ["readers", c.seed]),
+        suites=lambda c: [("writers", ["writers", c.seed] + (["thorough"] if c.tier == "thorough" else [])), ("readers", ["readers", c.seed, _n(c, 1500, 20000)]),
                           ("eprogs", ["eprogs", c.seed, _n(c, 4000, 60000)])],
         rule="programs of Encoder calls (typed writers, RepeatedEnum, UnrecognizedFields, Message/AlwaysMessage/PresentMessage/AlwaysAnyBytes nested to depth 3, callbacks that write and "
              "then report absence, bodies of 0/127/128/16383/16384 bytes, fresh / reused-with-stale-content / one-byte-capacity buffers); exhaustive grids: 60 typed writers x boundary value alphabet x field-number alphabet (1..2^29-1 boundaries) x dirty/tight buffers, lists across packed length classes; "
@@ -558,7 +562,7 @@ def check_C13(ctx):
 def check_C15(ctx):
     spec = dict(
         theorems=["C15_enc", "C15_enc_element", "C15_dec", "C15_dec_element"],
-        suites=lambda c: [("writers", ["writers", c.seed] + (["thorough"] if c.tier == "thorough" else [])), ("readers", ["readers", c.seed])] +
+        suites=lambda c: [("writers", ["writers", c.seed] + (["thorough"] if c.tier == "thorough" else [])), ("readers", ["readers", c.seed, _n(c, 1500, 20000)])] +
                          ([("sweep32", ["sweep32", c.seed])] if c.tier == "thorough" else []),
         filter=lambda r: r["suite"] == "sweep32" or r["cols"][0] in K32,
         rule="writer/reader grids restricted to the 32-bit kinds (bool,int32,sint32,sfixed32,uint32,fixed32,float; enum uses the int32 writer); "
@@ -581,6 +585,11 @@ def _c19_unmarshal_errors(ctx):
             k = r["ist"] if r["ist"] in ("ok", "PANIC") else "err:" + r["ist"].split(":")[-1]
             hist["unmarshal_error"][k] = hist["unmarshal_error"].get(k, 0) + 1
             distinct.add("dec|" + r["key"] + "|" + r["hex"][:400])
+            if "stale-error" in r["flags"]:
+                # an error a caller kept from an earlier call no longer names its field: it was rewritten by this call
+                prop_bad.append(({"suite": "dec", "cols": [r["key"], r["hex"][:4000], r["st"], r["tag"][:600]], "model": [ms]},
+                                 "after Unmarshal of %s into %s: %s" % (r["hex"][:200], r["key"], r["tag"][:400])))
+                continue
             if r["ist"] == ms:
                 continue
             desc = "Unmarshal of %s into %s returns %r; the decoder model fails with %s" % (r["hex"][:300], r["key"], r["st"][:200], ms)
@@ -596,7 +605,7 @@ def _c19_unmarshal_errors(ctx):
 def check_C19(ctx):
     return run_leaf_property(ctx, dict(
         theorems=["C19_str", "C19_err_wire"],
-        suites=lambda c: [("fnstr", ["fnstr", c.seed, _n(c, 3000, 200000)]), ("readers", ["readers", c.seed])],
+        suites=lambda c: [("fnstr", ["fnstr", c.seed, _n(c, 3000, 200000)]), ("readers", ["readers", c.seed, _n(c, 1500, 20000)])],
         extra=_c19_unmarshal_errors,
         rule="FieldNumber.String on boundaries (0, +-10^k+-1, Min/MaxInt32) and random int32 against strconv.Itoa; reader grid compares (field, class) of every error; "
              "whole messages: 6000 malformed inputs (truncations, wrong wire types, damaged lengths and groups) and the deep-nesting inputs through Unmarshal - the returned error's "
@@ -627,10 +636,20 @@ def fresh_suites(ctx, entries):
     return [(n, a, res["driver"]) for n, a in entries]
 
 
+def boundary_suites(ctx, seed, n):
+    """Schemas just outside the documented feature set, which the pinned generator rejects (so they contribute nothing on the
+    unchanged tree). When a changed generator accepts one, its output is held to the same properties as everything else."""
+    bnd = {k: v[1]() for k, v in F.BOUNDARY.items()}
+    bres = F.cached_build(bnd, "fresh-boundary")
+    if not bres.get("driver"):
+        return []
+    return [("msg", ["msg", seed, n, k + ".proto:"], bres["driver"]) for k, v in sorted(bres["results"].items()) if v == "ok"]
+
+
 def check_C01(ctx):
     return run_message_property(ctx, dict(
         theorems=["C01_scalar_field", "C01_varint_readable", "C01_framing", "C01_marshal_is_reference_encoding", "C01_total", "C01_reference_reads_the_values"],
-        suites=lambda c: [_msg_suite(c, 6000, 60000)] + fresh_suites(c, [("msg", ["msg", c.seed + 11, _n(c, 3600, 30000), ".proto:"])]),
+        suites=lambda c: [_msg_suite(c, 6000, 60000)] + fresh_suites(c, [("msg", ["msg", c.seed + 11, _n(c, 3600, 30000), ".proto:"])]) + boundary_suites(c, c.seed + 17, 600),
         prop={"msg": msg_flag("c01")}, tie={"msg": tie_bytes}, spec={"msg": spec_msg},
         nontrivial=nontrivial_any, shrink_flag="c01=bad", rule=MSG_RULE + "; oracle: proto.Unmarshal (dynamicpb) of the Marshal output compared with the value"))
 
@@ -638,7 +657,7 @@ def check_C01(ctx):
 def check_C03(ctx):
     return run_message_property(ctx, dict(
         theorems=["C03_scalar", "C03_transform", "C03_duration", "C03_time", "C03_reference_round_trip", "C03_marshal_unmarshal"],
-        suites=lambda c: [_msg_suite(c, 6000, 60000)] + fresh_suites(c, [("msg", ["msg", c.seed + 12, _n(c, 3600, 30000), ".proto:"])]),
+        suites=lambda c: [_msg_suite(c, 6000, 60000)] + fresh_suites(c, [("msg", ["msg", c.seed + 12, _n(c, 3600, 30000), ".proto:"])]) + boundary_suites(c, c.seed + 18, 600),
         prop={"msg": msg_flag("c03")}, tie={"msg": tie_bytes}, spec={"msg": spec_msg},
         nontrivial=nontrivial_any, shrink_flag="c03=bad", rule=MSG_RULE + "; oracle: deep comparison of m with Unmarshal(Marshal(m)) (bit patterns, presence, map contents)"))
 
@@ -655,7 +674,7 @@ def check_C06(ctx):
 def check_C08(ctx):
     return run_message_property(ctx, dict(
         theorems=["C08_optional_always", "C08_oneof_always", "C08_oneof_enum_always", "C08_oneof_message_never_omitted", "C08_always_message_emits", "C08_always_emits", "C08_message_presence", "C08_presence_round_trip"],
-        suites=lambda c: [_msg_suite(c, 4000, 60000)] + fresh_suites(c, [("msg", ["msg", c.seed + 14, _n(c, 2500, 20000), "presence.proto:"]), ("msg", ["msg", c.seed + 15, _n(c, 3000, 30000), ".proto:"])]),
+        suites=lambda c: [_msg_suite(c, 4000, 60000)] + fresh_suites(c, [("msg", ["msg", c.seed + 14, _n(c, 2500, 20000), "presence.proto:"]), ("msg", ["msg", c.seed + 15, _n(c, 3000, 30000), ".proto:"])]) + boundary_suites(c, c.seed + 16, 600),
         prop={"msg": lambda r: r["impl"] != "PANIC" and r["flags"].get("c08o") == "ok" and r["flags"].get("c08r") == "ok"},
         tie={"msg": tie_bytes}, spec={"msg": spec_msg}, nontrivial=nontrivial_any, shrink_flag="c08",
         rule=MSG_RULE + "; projection: presence skeleton (nil-ness, selected oneof member, list lengths) after round trip and as seen by the reference (Has())"))
